@@ -371,6 +371,22 @@ Definition content_power (s : fs) (n : name) : option bytes :=
 Definition mode_of (s : fs) (n : name) : option N :=
   match f_dir s n with Some i => Some (i_mode (f_ino s i)) | None => None end.
 
+(* ------------------------------------------------------------------------ *)
+(* Replaying a recorded sequence of calls on the file-system model, whoever    *)
+(* issued it (used to evaluate the power-loss view on the implementation's own *)
+(* calls).  A failed call has the effect of [after_fault].                     *)
+(* ------------------------------------------------------------------------ *)
+Definition replay_step (um : N) (st : fs * fstate) (x : ev * option nat) : fs * fstate :=
+  match x with
+  | (e, None) => let rsf := sem um e (fst st) (snd st) in (snd (fst rsf), snd rsf)
+  | (e, Some _) => after_fault um e (fst st) (snd st)
+  end.
+Definition replay (um : N) (t : list (ev * option nat)) (st : fs * fstate) : fs * fstate :=
+  fold_left (replay_step um) t st.
+
+Definition no_appear (sched : list (nat * action)) : bool :=
+  forallb (fun ka => match snd ka with AAppear _ _ => false | AFault _ => true end) sched.
+
 Definition init_world (s : fs) (umask : N) (dest : name) (crash : option nat) (sched : list (nat * action)) : world :=
   mkW s FNone umask dest 0 crash sched [] false.
 
